@@ -531,6 +531,37 @@ def r10_load_hands_over_every_parameter(ctx):
              "the model is no longer given the parameters read from the file", forbidden=[r"\bfor\b[^{}]*\bif\b", r"\.pop\(", r"filter\(", r"is not None"], construct="parameters handed over whole")
 
 
+def r11_observation_models_built_as_given(ctx):
+    """`BaseModel.load` hands the saved observation models to the constructor (as a dict `{"y": name}`): the constructor builds what it is
+    given.  The only re-binding of the requested models is the default taken when none was requested (`is None`) - a normalisation under any
+    other condition turns the saved kind into another one for the spellings it does not foresee."""
+    ctx.rule("C12.R11", "the constructor builds the observation models it is given (their only re-binding is the default for `None`)", 1)
+    f = ctx.ix.func("leaspy.models.time_reparametrized", "TimeReparametrizedModel.__init__", "C12.R11")
+    ctx.analysed(f)
+    cfg = CFG(f.node)
+    gets = [st for st in statements(f.node) if isinstance(st, ast.Assign) and len(st.targets) == 1 and isinstance(st.targets[0], ast.Name) and isinstance(st.value, ast.Call)
+            and isinstance(st.value.func, ast.Attribute) and st.value.func.attr in ("get", "pop") and st.value.args and U(st.value.args[0]) == "'obs_models'"]
+    if len(gets) != 1:
+        ctx.unknown("C12.R11", f, f.node, "the requested observation models are no longer read once from the keyword arguments", construct="observation models as given")
+        return
+    var = gets[0].targets[0].id
+    bad = []
+    n_def = 0
+    for n, st in cfg.stmt.items():
+        if st is None or st is gets[0] or not any(isinstance(t, ast.Name) and t.id == var for t in store_targets(st)):
+            continue
+        n_def += 1
+        gs = [(U(cfg.stmt[h].test), lab) for h, lab in cfg.if_guards(n)]
+        if not any(t_ == f"{var} is None" and lab for t_, lab in gs) or len(gs) != 1:
+            bad.append((st, gs))
+    if bad:
+        st, gs = bad[0]
+        ctx.violation("C12.R11", f, st, f"`{U(st)[:70]}` replaces the requested observation models" + (f" when `{gs[-1][0][:90]}`" if gs else "") + ": a model saved with a kind that this test does not "
+                      "spell out (the dict form `{'y': 'bernoulli'}` written by `to_dict`) is rebuilt with another noise model, and its saved parameters no longer fit it", construct="observation models as given")
+    else:
+        ctx.ok("C12.R11", f, gets[0], f"`{var}` is only defaulted when it is None ({n_def} re-binding)", construct="observation models as given")
+
+
 def rules(ctx):
     r7_trajectories_from_the_current_state(ctx)
     r6_files_read_afresh(ctx)
@@ -545,6 +576,7 @@ def rules(ctx):
     r8_feature_names_stored_as_given(ctx)
     r9_stateless_parameters_not_narrowed(ctx)
     r10_load_hands_over_every_parameter(ctx)
+    r11_observation_models_built_as_given(ctx)
     ctx.trust("json round trip of Python lists / numbers; tensor.tolist(); tensor.view")
     ctx.note("the two `assert (cond, msg)` statements at the end of StatefulModel.load_parameters assert a non-empty tuple (always true): the comparison of provided derived values is dead code (not part of the statement)")
 
